@@ -127,6 +127,39 @@ pub fn run(ctx: &mut Ctx) {
             }
         }
     }
+    // near misses: every byte of the header and of the trailer of a well-formed message replaced by every value
+    for head in [MACRO05, MACRO06] {
+        let full = [head, &b"Q7"[..], TRAIL].concat();
+        for posn in (0..7).chain(full.len() - 2..full.len()) {
+            if !ctx.mine(item) {
+                item += 1;
+                continue;
+            }
+            item += 1;
+            for v in 0..=255u8 {
+                let mut m = full.clone();
+                m[posn] = v;
+                eval(ctx, &EncCase { input: m, list: "default".into(), mask: 63, macros: true, fnc1: false, eci: None, order: 0, prelude: 0, skipdef: false }, "near_miss_one_byte_replaced");
+            }
+        }
+        // nested envelopes and bodies that themselves look like pieces of an envelope
+        for inner in [MACRO05, MACRO06] {
+            for body in [&b""[..], b"A", b"12", b"\x1e\x04", b"\x1e", b"\x04"] {
+                if ctx.mine(item) {
+                    let nested = [head, inner, body, TRAIL, TRAIL].concat();
+                    let half = [head, inner, body, TRAIL].concat();
+                    let tr2 = [head, body, TRAIL, TRAIL].concat();
+                    for m in [nested, half, tr2] {
+                        for mask in [63u8, 62, 3, 33] {
+                            eval(ctx, &EncCase { input: m.clone(), list: "default".into(), mask, macros: true, fnc1: false, eci: None, order: 0, prelude: 0, skipdef: false }, "nested_envelopes");
+                        }
+                    }
+                }
+                item += 1;
+            }
+        }
+    }
+    ctx.exhaustive.insert("every_header_and_trailer_byte_x_256_values".into(), true);
     // builder histories: noise calls before the real ones, defaults left implicit, every order of the real calls
     {
         let msgs: Vec<Vec<u8>> = vec![[MACRO05, &b"AB12"[..], TRAIL].concat(), [MACRO06, &b"x"[..], TRAIL].concat(), [MACRO05, &b"AB12"[..]].concat(), b"AB12".to_vec()];
